@@ -37,66 +37,111 @@ def load_known():
         return json.load(f).get("findings", [])
 
 
+_G = {}
+
+
+def gen_one(short):
+    """Generate the obligations of one function (runs in a forked worker; returns plain data)."""
+    prog, cfg = _G["prog"], _G["cfg"]
+    return _gen_function(prog, cfg, short, keep=False)
+
+
+def _gen_function(prog, cfg, short, keep):
+    jobs = []
+    meta = {"functions": [], "assumptions": set(), "models": set(), "bounded": set(), "summarised": set(),
+            "contracts_used": set(), "trusted_contracts": []}
+    full = full_key(short)
+    f = prog.funcs.get(full)
+    if f is None:
+        jobs.append({"name": short + ":binding:function-exists", "kind": "binding", "status": "failed",
+                     "detail": "function named in props/contracts does not exist in the source", "func": short})
+        return jobs, meta
+    if f.contract is not None and "trusted" in f.contract.flags:
+        meta["trusted_contracts"].append(short)
+        return jobs, meta
+    v = Verifier(prog, cfg)
+    t0 = time.time()
+    try:
+        obs = v.verify(f)
+    except (Unsupported, ClauseError) as ex:
+        jobs.append({"name": short + ":subset:executor", "kind": "subset", "status": "failed", "func": short,
+                     "detail": "outside the verified subset or contract does not bind: %s" % ex})
+        return jobs, meta
+    except Exception as ex:  # executor bug: report, never pass silently
+        jobs.append({"name": short + ":subset:executor", "kind": "subset", "status": "failed", "func": short,
+                     "detail": "executor error: %s\n%s" % (ex, traceback.format_exc()[-1500:])})
+        return jobs, meta
+    if not obs:
+        jobs.append({"name": short + ":vacuity:no-obligations", "kind": "vacuity", "status": "failed", "func": short,
+                     "detail": "function is listed under contract but generated zero obligations (contract block missing or not bound)"})
+    meta["assumptions"] |= v.assumptions
+    meta["models"] |= v.models_used
+    meta["bounded"] |= v.bounded
+    meta["summarised"] |= getattr(v, "summarised", set())
+    meta["contracts_used"] |= set(prog.short(x) for x in v.called_contracts)
+    seen = {}
+    for ob in obs:
+        n = ob.name
+        if n in seen:
+            seen[n] += 1
+            ob.name = "%s#%d" % (n, seen[n])
+        else:
+            seen[n] = 1
+        hyps, pc, goal = build_vc(v, ob)
+        text, fallback = solve.vc_texts(hyps, pc, goal)
+        j = {"name": ob.name, "kind": ob.kind, "text": text, "fallback": fallback, "func": short, "ln": ob.ln, "clause": ob.text,
+             "canary": ob.canary}
+        if keep:
+            j["verifier"], j["ob"] = v, ob
+        jobs.append(j)
+    # vacuity: the assumed precondition (+ type facts) must be satisfiable
+    pre = [x for x in v.facts[:getattr(v, "n_pre_facts", 0)] if not z3.is_true(x)]
+    if f.contract is not None and f.contract.of("requires"):
+        s = z3.Solver()
+        for h in pre:
+            s.add(h)
+        jobs.append({"name": short + ":vacuity:precondition-satisfiable", "kind": "vacuity", "text": s.to_smt2(),
+                     "func": short, "expect": "sat"})
+    meta["functions"].append({"function": short, "obligations": len(obs), "gen_ms": int((time.time() - t0) * 1000),
+                              "file": f.file.replace("/repo/", "") if f.file else None,
+                              "spec_function": bool(f.spec)})
+    return jobs, meta
+
+
 def generate(prog, props, log):
-    """Run the symbolic executor on every function under contract. Returns (jobs, meta)."""
+    """Run the symbolic executor on every function under contract (one forked worker per function).
+    Returns (jobs, meta)."""
     jobs = []
     meta = {"functions": [], "assumptions": set(), "models": set(), "bounded": set(), "outside": [], "notes": [],
-            "contracts_used": set(), "trusted_contracts": []}
-    cfg = props.get("config", {})
-    for short in props["functions"]:
-        full = full_key(short)
-        f = prog.funcs.get(full)
-        if f is None:
-            jobs.append({"name": short + ":binding:function-exists", "kind": "binding", "status": "failed",
-                         "detail": "function named in props/contracts does not exist in the source", "func": short})
-            continue
-        if f.contract is not None and "trusted" in f.contract.flags:
-            meta["trusted_contracts"].append(short)
-            continue
-        v = Verifier(prog, cfg)
-        t0 = time.time()
-        try:
-            obs = v.verify(f)
-        except (Unsupported, ClauseError) as ex:
-            jobs.append({"name": short + ":subset:executor", "kind": "subset", "status": "failed", "func": short,
-                         "detail": "outside the verified subset or contract does not bind: %s" % ex})
-            continue
-        except Exception as ex:  # executor bug: report, never pass silently
-            jobs.append({"name": short + ":subset:executor", "kind": "subset", "status": "failed", "func": short,
-                         "detail": "executor error: %s\n%s" % (ex, traceback.format_exc()[-1500:])})
-            continue
-        if not obs:
-            jobs.append({"name": short + ":vacuity:no-obligations", "kind": "vacuity", "status": "failed", "func": short,
-                         "detail": "function is listed under contract but generated zero obligations (contract block missing or not bound)"})
-        meta["functions"].append({"function": short, "obligations": len(obs), "gen_ms": int((time.time() - t0) * 1000),
-                                  "file": f.file.replace("/repo/", "") if f.file else None,
-                                  "spec_function": bool(f.spec)})
-        meta["assumptions"] |= v.assumptions
-        meta["models"] |= v.models_used
-        meta["bounded"] |= v.bounded
-        meta.setdefault("summarised", set()).update(getattr(v, "summarised", set()))
-        meta["contracts_used"] |= set(prog.short(x) for x in v.called_contracts)
-        seen = {}
-        for ob in obs:
-            n = ob.name
-            if n in seen:
-                seen[n] += 1
-                ob.name = "%s#%d" % (n, seen[n])
-            else:
-                seen[n] = 1
-            hyps, pc, goal = build_vc(v, ob)
-            text, fallback = solve.vc_texts(hyps, pc, goal)
-            jobs.append({"name": ob.name, "kind": ob.kind, "text": text, "fallback": fallback, "func": short, "ln": ob.ln, "clause": ob.text,
-                         "canary": ob.canary, "verifier": v, "ob": ob})
-        # vacuity: the assumed precondition (+ type facts) must be satisfiable
-        pre = [x for x in v.facts[:getattr(v, "n_pre_facts", 0)] if not z3.is_true(x)]
-        if f.contract is not None and f.contract.of("requires"):
-            s = z3.Solver()
-            for h in pre:
-                s.add(h)
-            jobs.append({"name": short + ":vacuity:precondition-satisfiable", "kind": "vacuity", "text": s.to_smt2(),
-                         "func": short, "expect": "sat", "verifier": v, "ob": None})
+            "contracts_used": set(), "trusted_contracts": [], "summarised": set()}
+    _G["prog"], _G["cfg"] = prog, props.get("config", {})
+    shorts = list(props["functions"])
+    if len(shorts) > 1 and not os.environ.get("GOVC_SERIAL"):
+        with multiprocessing.get_context("fork").Pool(min(16, len(shorts))) as pool:
+            results = pool.map(gen_one, shorts, chunksize=1)
+    else:
+        results = [gen_one(s_) for s_ in shorts]
+    for j2, m2 in results:
+        jobs += j2
+        for k in ("assumptions", "models", "bounded", "contracts_used", "summarised"):
+            meta[k] |= m2[k]
+        meta["functions"] += m2["functions"]
+        meta["trusted_contracts"] += m2["trusted_contracts"]
     return jobs, meta
+
+
+def attach_verifier(prog, props, job):
+    """Re-generate the function of a failed obligation in this process so that its model can be searched and replayed."""
+    if job.get("verifier") is not None or "text" not in job:
+        return
+    cache = _G.setdefault("regen", {})
+    short = job["func"]
+    if short not in cache:
+        cache[short] = _gen_function(prog, props.get("config", {}), short, keep=True)[0]
+    for j in cache[short]:
+        if j["name"] == job["name"] and "ob" in j:
+            job["verifier"], job["ob"] = j["verifier"], j["ob"]
+            return
 
 
 def run(pid, tier, repo="/repo", out_evidence=True, quiet=False):
@@ -172,9 +217,13 @@ def run(pid, tier, repo="/repo", out_evidence=True, quiet=False):
     known_lines = []
     os.makedirs(os.path.join(ROOT, "replays", pid), exist_ok=True)
     for j in failed:
+        if prog is not None:
+            attach_verifier(prog, props, j)
         rp = replay_mod.handle_failure(pid, j, repo, tier)
         violations.append((j, rp))
     for j in canary_failed:
+        if prog is not None:
+            attach_verifier(prog, props, j)
         rp = replay_mod.handle_failure(pid, j, repo, tier)
         match = [k for k in known if k.get("obligation") == j["name"]]
         if match:
